@@ -146,6 +146,92 @@ def check_mixed_classes(rep):
             rep.fail('C01:mixed.wf', 'accepted but ' + why, what)
 
 
+def check_biclosed(rep):
+    """slash types that agree on one side only: a composition / rule box over them is refused, or well-typed wire by wire
+    (a slash type is one wire, compared structurally through its repr, not with the library's `==`)"""
+    from discopy import biclosed as B
+    x, y, z, a, w = (B.Ty(n) for n in 'xyzaw')
+    noun = B.Box('noun', B.Ty(), a)
+    pairs = [(x << y, x << z), (x << z, y << z), (y >> x, y >> z), (y >> x, z >> x), (x << (y << y), x << (y << z)),
+             ((x >> y) >> z, (x >> w) >> z), (x << y, x >> y), ((x << y) << z, (x << y) << w), (x << y, x << y)]
+    cases = []
+    for s_, t_ in pairs:
+        same = repr(s_) == repr(t_)
+        cases += [('Box(a -> %s) >> Box(%s -> w)' % (s_, t_), same, lambda s_=s_, t_=t_: B.Box('v', a, s_) >> B.Box('u', t_, w)),
+                  ('Id(%s) >> Id(%s)' % (s_, t_), same, lambda s_=s_, t_=t_: B.Id(s_) >> B.Id(t_)),
+                  ('noun >> Box(a -> %s @ z) >> Box(%s -> w) @ Id(z)' % (s_, t_), same,
+                   lambda s_=s_, t_=t_: noun >> B.Box('v', a, s_ @ z) >> B.Box('u', t_, w) @ B.Id(z)),
+                  ('Diagram(%s, w, [Box(%s -> w)], [0])' % (s_, t_), same,
+                   lambda s_=s_, t_=t_: B.Diagram(s_, w, [B.Box('u', t_, w)], [0])),
+                  ('(Box(a -> %s) @ noun >> Box(%s -> w) @ Id(a))[1:]' % (s_, t_), same,
+                   lambda s_=s_, t_=t_: (B.Box('v', a, s_) @ noun >> B.Box('u', t_, w) @ B.Id(a))[1:])]
+    verb = B.Box('verb', a, (x << y) @ z)
+    cases += [('verb >> FA(x << z)', False, lambda: verb >> B.FA(x << z)),
+              ('Box(a -> (x << y) @ y) >> FA(x << y)', True, lambda: B.Box('verb', a, (x << y) @ y) >> B.FA(x << y)),
+              ('Box(a -> z @ (y >> x)) >> BA(z >> x)', True, lambda: B.Box('verb', a, z @ (z >> x)) >> B.BA(z >> x)),
+              ('Box(a -> y @ (z >> x)) >> BA(z >> x)', False, lambda: B.Box('verb', a, y @ (z >> x)) >> B.BA(z >> x)),
+              ('FC(x << (y << y), (y << z) << w)', False, lambda: B.FC(x << (y << y), (y << z) << w)),
+              ('FC(x << (y << z), (y << z) << w)', True, lambda: B.FC(x << (y << z), (y << z) << w)),
+              ('BC(w >> (y >> z), (y >> y) >> x)', False, lambda: B.BC(w >> (y >> z), (y >> y) >> x)),
+              ('BC(w >> (y >> z), (y >> z) >> x)', True, lambda: B.BC(w >> (y >> z), (y >> z) >> x))]
+    for what, acceptable, thunk in cases:
+        rep.case(('biclosed', what))
+        got = common.outcome(thunk)
+        if got[0] == 'exc':
+            if got[1] not in (AxiomError, TypeError):
+                rep.fail('C01:biclosed.refuses', 'raised %r' % (got[1],), what)
+            elif acceptable:
+                rep.fail('C01:biclosed.accepts', 'a well-typed request was refused with %r' % (got[1],), what)
+            continue
+        why = common.wf_reason(got[1])
+        if why:
+            rep.fail('C01:biclosed.wf', 'accepted but ' + why, what)
+        elif not acceptable:
+            rep.fail('C01:biclosed.refuses', 'an ill-typed request was accepted', what)
+
+
+def check_sum_constructor(rep):
+    """Sum([...]) with a term that differs from the others on one side only (or on both) is refused, in every class that has sums"""
+    from discopy import tensor as _tensor
+    from discopy.quantum import circuit as _circuit, gates as _gates
+    x, y, z = monoidal.Ty('x'), monoidal.Ty('y'), monoidal.Ty('z')
+    rx, ry, rz = rigid.Ty('x'), rigid.Ty('y'), rigid.Ty('z')
+    D2, D3 = _tensor.Dim(2), _tensor.Dim(3)
+    q = _circuit.qubit
+    families = [
+        ('cat', cat.Sum, lambda a, b: cat.Box('f', a, b), cat.Ob('x'), cat.Ob('y'), cat.Ob('z')),
+        ('monoidal', monoidal.Sum, lambda a, b: monoidal.Box('f', a, b), x, y, z),
+        ('rigid', rigid.Diagram.sum, lambda a, b: rigid.Box('f', a, b), rx, ry, rz.l),
+        ('tensor', _tensor.Diagram.sum, lambda a, b: _tensor.Box('f', a, b, [0] * (a @ b and __import__('numpy').prod(list(a @ b)) or 1)), D2, D3, D2 @ D3),
+        ('circuit', _circuit.Circuit.sum, lambda a, b: _circuit.Box('f', a, b), q, q @ q, _circuit.bit)]
+    for name, mk, box, a, b, c in families:
+        try:
+            good, good2 = box(a, b), box(a, b)
+            bads = [('wrong codomain', box(a, c)), ('wrong domain', box(c, b)), ('both wrong', box(c, a)), ('swapped', box(b, a))]
+        except Exception as e:       # noqa
+            rep.fail('C01:no_exception', 'building boxes for sums in %s raised %r' % (name, e), name)
+            continue
+        ok = common.outcome(lambda: mk([good, good2, good]))
+        rep.case(('sum.constructor', name, 'well-typed'))
+        if ok[0] != 'ok' or (ok[1].dom, ok[1].cod) != (good.dom, good.cod):
+            rep.fail('C01:sum.constructor.accepts', 'a well-typed sum gave %r' % (ok,), name)
+        for why, bad in bads:
+            for pos, terms in (('last', [good, good2, bad]), ('middle', [good, bad, good2]), ('first', [bad, good, good2]),
+                               ('second of two', [good, bad])):
+                rep.case(('sum.constructor', name, why, pos))
+                got = common.outcome(lambda: mk(terms))
+                if got != ('exc', AxiomError):
+                    rep.fail('C01:sum.constructor.refuses', 'a sum with a term of another type (%s, %s) gave %r' % (why, pos, got), name)
+            for pos, kw in (('dom given', dict(dom=good.dom)), ('cod given', dict(cod=good.cod)), ('both given', dict(dom=good.dom, cod=good.cod))):
+                if ('dom' in kw and 'cod' not in kw and common.ty_key_any(bad.dom) == common.ty_key_any(good.dom)) \
+                        or ('cod' in kw and 'dom' not in kw and common.ty_key_any(bad.cod) == common.ty_key_any(good.cod)):
+                    continue         # the side that is not announced is taken from the term: a well-typed request
+                rep.case(('sum.constructor', name, why, pos))
+                got = common.outcome(lambda: mk([bad], **kw))
+                if got != ('exc', AxiomError):
+                    rep.fail('C01:sum.constructor.refuses', 'a sum announced with another type than its term (%s, %s) gave %r' % (why, pos, got), name)
+
+
 def check_constructor(rep, boxes, doms):
     """ill-typed requests are refused; accepted ones are wf"""
     for dom in doms:
@@ -318,6 +404,8 @@ def run(tier, seed=0, shard=(0, 1)):
         check_box_catalogue(rep)
         check_cat(rep)
         check_mixed_classes(rep)
+        check_biclosed(rep)
+        check_sum_constructor(rep)
     mtys = [monoidal.Ty(), x, y, x @ y, x @ x @ y]
     check_structural(rep, mtys, monoidal.Diagram, shard)
     rx, ry = rigid.Ty('x'), rigid.Ty('y')
